@@ -395,6 +395,16 @@ class Func(object):
         return '<func %s>' % self.qualname
 
 
+class AbstractMask(object):
+    """result of comparing an abstract array element-wise; only np.any / np.all may consume it"""
+    def __init__(self, term, shape):
+        self.term = term
+        self.shape = shape
+
+    def __repr__(self):
+        return '<mask %s %s %s>' % (self.term[1], self.term[0], self.term[2])
+
+
 class BoundMethod(object):
     def __init__(self, obj, func):
         self.obj = obj
@@ -1280,6 +1290,9 @@ class Interp(object):
             raise SymRaise('AttributeError', ("'NoneType' object has no attribute '%s'" % name,), node)
         if isinstance(o, SymRaise) and name == 'args':
             return o.eargs
+        if o is dict and name == 'fromkeys':
+            # Python's own semantics: every key is bound to the SAME value object
+            return lambda keys, value=None: dict.fromkeys(list(keys), value)
         raise CheckerError('line %s: getattr %r . %s unsupported' % (getattr(node, 'lineno', '?'), type(o).__name__, name))
 
     def eval_index(self, sl, fr):
@@ -1509,6 +1522,11 @@ class Interp(object):
             raise CheckerError('line %d: comparison involving a symbolic boolean' % node.lineno)
         if isinstance(a, Poison) or isinstance(b, Poison):
             raise CheckerError('line %d: loop-carried value compared (%s)' % (node.lineno, a if isinstance(a, Poison) else b))
+        if type(a).__name__ in ('InArray', 'OutArray') or type(b).__name__ in ('InArray', 'OutArray'):
+            # element-wise comparison with an array whose entries are not enumerated: an abstract mask (np.any / np.all of it is one
+            # boolean unknown, anything else that looks into it is a checker error)
+            arr = a if type(a).__name__ in ('InArray', 'OutArray') else b
+            return AbstractMask((sym, repr(a), repr(b)), getattr(arr, 'shape', None))
         a, b = _unwrap0(a), _unwrap0(b)
         if isinstance(a, P) or isinstance(b, P):
             if a is None or b is None:
